@@ -184,6 +184,44 @@ MUTANTS = [
     M("benign-chk-si-guard-hoisted", U,
       "        if not len(self.storage_index) == 16: # sha256 hash truncated to 128\n",
       "        si_len = len(self.storage_index)\n        if not si_len == hashutil.KEYLEN: # sha256 hash truncated to 128\n", None),
+    # ---- C15.11 at most one alleged prefix is removed (seeded change C15-D and edits with the same effect)
+    M("prefix-ifs-independent", U,
+      "    can_be_mutable = can_be_writeable = not deep_immutable\n    if s.startswith(ALLEGED_IMMUTABLE_PREFIX):\n        can_be_mutable = can_be_writeable = False\n        s = s[len(ALLEGED_IMMUTABLE_PREFIX):]\n    elif s.startswith(ALLEGED_READONLY_PREFIX):\n",
+      "    can_be_mutable = not deep_immutable\n    if s.startswith(ALLEGED_IMMUTABLE_PREFIX):\n        can_be_mutable = False\n        s = s[len(ALLEGED_IMMUTABLE_PREFIX):]\n    can_be_writeable = can_be_mutable\n    if s.startswith(ALLEGED_READONLY_PREFIX):\n", "C15.11"),
+    M("prefix-elif-to-if", U, "    elif s.startswith(ALLEGED_READONLY_PREFIX):\n        can_be_writeable = False\n",
+      "    if s.startswith(ALLEGED_READONLY_PREFIX):\n        can_be_writeable = False\n", "C15.11"),
+    M("prefix-strip-loop", U,
+      "    if s.startswith(ALLEGED_IMMUTABLE_PREFIX):\n        can_be_mutable = can_be_writeable = False\n        s = s[len(ALLEGED_IMMUTABLE_PREFIX):]\n    elif s.startswith(ALLEGED_READONLY_PREFIX):\n        can_be_writeable = False\n        s = s[len(ALLEGED_READONLY_PREFIX):]\n",
+      "    while s.startswith((ALLEGED_IMMUTABLE_PREFIX, ALLEGED_READONLY_PREFIX)):\n        if s.startswith(ALLEGED_IMMUTABLE_PREFIX):\n            can_be_mutable = can_be_writeable = False\n            s = s[len(ALLEGED_IMMUTABLE_PREFIX):]\n        else:\n            can_be_writeable = False\n            s = s[len(ALLEGED_READONLY_PREFIX):]\n", "C15.11"),
+    M("prefix-ro-then-ro-again", U,
+      "        can_be_writeable = False\n        s = s[len(ALLEGED_READONLY_PREFIX):]\n",
+      "        can_be_writeable = False\n        s = s[len(ALLEGED_READONLY_PREFIX):]\n        if s.startswith(ALLEGED_READONLY_PREFIX):\n            s = s[len(ALLEGED_READONLY_PREFIX):]\n", "C15.11"),
+    M("benign-prefix-ifs-on-original", U,
+      "    elif s.startswith(ALLEGED_READONLY_PREFIX):\n        can_be_writeable = False\n        s = s[len(ALLEGED_READONLY_PREFIX):]\n",
+      "    if u.startswith(ALLEGED_READONLY_PREFIX):\n        can_be_writeable = False\n        s = u[len(ALLEGED_READONLY_PREFIX):]\n", None),
+    M("benign-prefix-nested-else", U,
+      "    elif s.startswith(ALLEGED_READONLY_PREFIX):\n        can_be_writeable = False\n        s = s[len(ALLEGED_READONLY_PREFIX):]\n",
+      "    else:\n        if s.startswith(ALLEGED_READONLY_PREFIX):\n            s = s[3:]\n            can_be_writeable = False\n", None),
+    M("benign-prefix-flag-then-strip", U,
+      "    if s.startswith(ALLEGED_IMMUTABLE_PREFIX):\n        can_be_mutable = can_be_writeable = False\n        s = s[len(ALLEGED_IMMUTABLE_PREFIX):]\n    elif s.startswith(ALLEGED_READONLY_PREFIX):\n        can_be_writeable = False\n        s = s[len(ALLEGED_READONLY_PREFIX):]\n",
+      "    alleged_imm = s.startswith(ALLEGED_IMMUTABLE_PREFIX)\n    alleged_ro = not alleged_imm and s.startswith(ALLEGED_READONLY_PREFIX)\n    if alleged_imm:\n        can_be_mutable = False\n        s = s[len(ALLEGED_IMMUTABLE_PREFIX):]\n    if alleged_ro:\n        s = s[len(ALLEGED_READONLY_PREFIX):]\n    if alleged_imm or alleged_ro:\n        can_be_writeable = False\n", None),
+    # ---- C15.12 nothing but one alleged prefix is removed, neither end is trimmed
+    M("input-stripped", U, "        raise TypeError(\"URI must be unicode string or bytes: %r\" % (u,))\n\n    # We allow",
+      "        raise TypeError(\"URI must be unicode string or bytes: %r\" % (u,))\n    u = u.strip()\n\n    # We allow", "C15.12"),
+    M("working-copy-lstripped", U, "    s = u\n    can_be_mutable = can_be_writeable", "    s = u.lstrip()\n    can_be_mutable = can_be_writeable", "C15.12"),
+    M("after-prefix-lstripped", U,
+      "        can_be_writeable = False\n        s = s[len(ALLEGED_READONLY_PREFIX):]\n",
+      "        can_be_writeable = False\n        s = s[len(ALLEGED_READONLY_PREFIX):].lstrip()\n", "C15.12"),
+    M("working-copy-rstripped", U, "    s = u\n    can_be_mutable = can_be_writeable", "    s = u.rstrip()\n    can_be_mutable = can_be_writeable", "C15.12"),
+    M("ro-strip-too-long", U,
+      "        can_be_writeable = False\n        s = s[len(ALLEGED_READONLY_PREFIX):]\n",
+      "        can_be_writeable = False\n        s = s[len(ALLEGED_IMMUTABLE_PREFIX):]\n", ["C15.12", "C15.9"]),
+    M("benign-prefix-test-by-slice", U, "    if s.startswith(ALLEGED_IMMUTABLE_PREFIX):\n",
+      "    if s[:len(ALLEGED_IMMUTABLE_PREFIX)] == ALLEGED_IMMUTABLE_PREFIX:\n", None),
+    M("benign-strip-literal-length", U,
+      "        can_be_mutable = can_be_writeable = False\n        s = s[len(ALLEGED_IMMUTABLE_PREFIX):]\n",
+      "        can_be_mutable = can_be_writeable = False\n        s = u[4:]\n", None),
+    M("benign-working-copy-full-slice", U, "    s = u\n    can_be_mutable = can_be_writeable", "    s = u[0:]\n    can_be_mutable = can_be_writeable", None),
     # ---- vanished anchor
     M("vanish-from-string", U, "def from_string(u, deep_immutable=False", "def from_stringX(u, deep_immutable=False", "ANALYSIS-ERROR"),
 ]
